@@ -72,7 +72,7 @@ Proof.
         -- exact I.
       * inversion H; subst. exact I.
       * discriminate.
-  - unfold tick_raw in H. destruct (scan p now (c_timeout c) (st_pend st)) as [[[k t] e0]| |] eqn:Es; try discriminate.
+  - unfold tick_raw in H. destruct (scan (c_noval c) p now (c_timeout c) (st_pend st)) as [[[k t] e0]| |] eqn:Es; try discriminate.
     inversion H; subst. unfold pend_inv; simpl. eapply scan_keeps; eauto.
   - inversion H; subst; exact I.
   - inversion H; subst; exact I.
@@ -102,17 +102,19 @@ Lemma init_inv : forall Q, pend_inv Q init.
 Proof. intros Q. constructor. Qed.
 
 (** in every reachable state an iteration of the pending loop either completes
-    or panics at the group-expansion statement *)
+    or panics at the group-expansion statement or (validation disabled) on the
+    nil validator *)
 Lemma tick_only_group : forall c p0 evs st p now,
   run c init p0 evs = Some (st, p) ->
-  tick_raw c p now st <> Fatal /\ (forall w, tick_raw c p now st = Panic w -> w = W_GROUP).
+  tick_raw c p now st <> Fatal
+  /\ (forall w, tick_raw c p now st = Panic w -> w = W_GROUP \/ (c_noval c = true /\ w = W_NILVAL)).
 Proof.
   intros c p0 evs st p now H.
   pose proof (run_inv_true c evs init p0 st p (init_inv _) H) as I.
-  unfold tick_raw. pose proof (scan_not_fatal p now (c_timeout c) (st_pend st)) as NF.
-  destruct (scan p now (c_timeout c) (st_pend st)) as [[[k t] e0]| |] eqn:Es; [|split|congruence]; try discriminate.
+  unfold tick_raw. pose proof (scan_not_fatal (c_noval c) p now (c_timeout c) (st_pend st)) as NF.
+  destruct (scan (c_noval c) p now (c_timeout c) (st_pend st)) as [[[k t] e0]| |] eqn:Es; [|split|congruence]; try discriminate.
   - split; [discriminate|]. intros w Hw; discriminate.
-  - intros w0 Hw; inversion Hw; subst. eapply scan_panic_group; [|exact Es].
+  - intros w0 Hw; inversion Hw; subst. eapply scan_panic_kind; [|exact Es].
     eapply Forall_impl; [|exact I]. intros a [A _]; exact A.
 Qed.
 
@@ -166,19 +168,20 @@ Proof.
 Qed.
 
 Lemma run_fits : forall c PS evs st p,
+  c_noval c = false ->
   pend_inv (QFits PS) st -> In p PS ->
   (forall p', In (EPool p') evs -> In p' PS) ->
   (forall now f pb lb q, In (ERecvLt now f pb lb) evs -> In q PS -> fits q lb = true) ->
   (forall ev, In ev evs -> mem_ok c ev = true) ->
   run c st p evs <> None.
 Proof.
-  induction evs as [|ev evs IH]; intros st p I Hp HP HL HM; simpl; [discriminate|].
+  induction evs as [|ev evs IH]; intros st p NV I Hp HP HL HM; simpl; [discriminate|].
   assert (exists st' p' e, step c st p ev = Alive st' p' e /\ In p' PS) as [st' [p' [e [E Hp']]]].
   { destruct ev; simpl.
     - destruct (recovered_total c st p (ERecvLt now from pub lb) eq_refl (HM _ (or_introl eq_refl)))
         as [s1 [p1 [e1 E]]]. simpl in E. exists s1, p, e1.
       destruct (recv_lt_raw c p now from pub lb st) as [sa [[sb eb]| |]]; inversion E; subst; auto.
-    - unfold tick_raw. destruct (scan_fits_ok p now (c_timeout c) (st_pend st)) as [k [t [e0 Es]]].
+    - unfold tick_raw. rewrite NV. destruct (scan_fits_ok p now (c_timeout c) (st_pend st)) as [k [t [e0 Es]]].
       { eapply Forall_impl; [|exact I]. intros a [A B]. split; [exact A|apply B; exact Hp]. }
       rewrite Es. eauto.
     - exists st, p0, []. split; [reflexivity|]. apply HP. left; reflexivity.
@@ -208,10 +211,12 @@ Proof.
 Qed.
 
 Lemma no_crash_when_groups_fit : forall c p0 evs,
+  c_noval c = false ->
   forallb (mem_ok c) evs = true -> fits_hist p0 evs = true -> run c init p0 evs <> None.
 Proof.
-  intros c p0 evs HM HF. unfold fits_hist in HF. rewrite forallb_forall in HF.
+  intros c p0 evs NV HM HF. unfold fits_hist in HF. rewrite forallb_forall in HF.
   apply (run_fits c (pools_of p0 evs)).
+  - exact NV.
   - apply init_inv.
   - left; reflexivity.
   - intros p' H. apply in_pools_of; exact H.
